@@ -176,7 +176,8 @@ def _run_property(ctx):
     ctx.sample({'law': 'local-only', 'statement': 'merge(b, X, b) == X without conflict'})
 
 
-MERGE_MODEL_THEOREMS = []
+MERGE_MODEL_THEOREMS = ['Nbdime.C05_model_identity', 'Nbdime.C05_model_onesided_local', 'Nbdime.C05_model_onesided_remote', 'Nbdime.C05_model_agreement']
+THEOREMS.extend(t for t in MERGE_MODEL_THEOREMS if t not in THEOREMS)
 
 
 def run(ctx):
